@@ -757,7 +757,8 @@ theorem fit_objective_preserved [CommRing F] [Div F] (t' p : V2 F) (σ : F) (R R
     obtain ⟨s, d⟩ := q
     simp only [fitObjective2, List.map_cons, ih, fit_fold_back_correct]
 
-/-- the model of `fit` with the optimiser as a parameter returns exactly that folded map. -/
+/-- (definitional: unfolds `fit2`; the content is `fit_fold_back_correct` and the tie of `fit2` to the code.) the model of `fit`
+with the optimiser as a parameter returns exactly that folded map. -/
 theorem fit2_is_folded [CommRing F] [Div F] (n : F) (opt : List (V2 F × V2 F) → V2 F × F × F × F) (src dst : List (V2 F))
     (x : V2 F) :
     let p := precond2 n src dst
@@ -842,5 +843,106 @@ theorem wrong_wrap_differs : wrapPoint2 .voxel .floor ⟨3 / 2, 5 / 2⟩ ≠ wra
   decide +kernel
 
 end typedpoints
+
+/-! ### round 5: the warp cache follows the transformation; direction of the quarter-turn noise; zero angles -/
+
+section round5
+open Darsia.Corrections
+
+/-- invariant of the keyed cache: a stored cache belongs to a version that is not newer than the current one, and if it is the
+current version it is the cache of the current parameters. -/
+def CacheOK (mode : Mode) (csS csD : CS2) (rnd : Rounding) (st : TState) : Prop :=
+  ∀ v c, st.cache = some (v, c) → v ≤ st.ver ∧ (v = st.ver → c = mkCache mode st.T csS csD rnd)
+
+theorem tstep_keeps (mode : Mode) (csS csD : CS2) (rnd : Rounding) (st : TState) (op : TOp)
+    (h : CacheOK mode csS csD rnd st) : CacheOK mode csS csD rnd (tstep mode csS csD rnd st op).1 := by
+  cases op with
+  | setParams T' =>
+    intro v c hc
+    simp only [tstep] at hc
+    obtain ⟨hle, _⟩ := h v c hc
+    exact ⟨Nat.le_succ_of_le hle, fun hv => absurd hv (by simp only [tstep]; omega)⟩
+  | apply a =>
+    intro v c hc
+    simp only [tstep] at hc
+    cases hcache : st.cache with
+    | none =>
+      simp only [hcache, Option.some.injEq, Prod.mk.injEq] at hc
+      obtain ⟨rfl, rfl⟩ := hc
+      exact ⟨le_refl _, fun _ => rfl⟩
+    | some vc =>
+      obtain ⟨v0, c0⟩ := vc
+      simp only [hcache, Option.some.injEq, Prod.mk.injEq] at hc
+      obtain ⟨rfl, rfl⟩ := hc
+      refine ⟨le_refl _, fun _ => ?_⟩
+      by_cases hv : v0 = st.ver
+      · simp only [hv, if_true]; exact (h v0 c0 hcache).2 hv
+      · simp only [hv, if_false]; rfl
+
+/-- THE WARP CACHE FOLLOWS THE TRANSFORMATION: after any sequence of applications and parameter changes on one correction
+object, applying it to an array gives what a fresh object with the CURRENT parameters gives. -/
+theorem warp_cache_tracks_parameters (mode : Mode) (csS csD : CS2) (rnd : Rounding) (T0 : Affine2 Rat)
+    (ops : List TOp) (a : TArr) :
+    let st := trun (tstep mode csS csD rnd) ⟨0, T0, none⟩ ops
+    (tstep mode csS csD rnd st (.apply a)).2 = some (transfCorr mode st.T csS csD rnd a) := by
+  have gen : ∀ (st : TState), CacheOK mode csS csD rnd st →
+      CacheOK mode csS csD rnd (trun (tstep mode csS csD rnd) st ops) := by
+    induction ops with
+    | nil => intro st h; exact h
+    | cons op ops ih => intro st h; exact ih _ (tstep_keeps mode csS csD rnd st op h)
+  intro st
+  have hok : CacheOK mode csS csD rnd st := gen _ (fun v c hc => by simp at hc)
+  simp only [tstep]
+  cases hcache : st.cache with
+  | none => rfl
+  | some vc =>
+    obtain ⟨v0, c0⟩ := vc
+    by_cases hv : v0 = st.ver
+    · simp only [hv, if_true, (hok v0 c0 hcache).2 hv]; rfl
+    · simp only [hv, if_false]; rfl
+
+/-- DEFECT of the tree before the fix, as a theorem: without invalidation the second application still uses the first warp
+(shift by one column, then parameters set to the identity: the result is still shifted). -/
+theorem warp_cache_stale_witness :
+    let cs : CS2 := ⟨1, 2, 0, 1, 1, 1⟩
+    let a : TArr := ⟨.u8, ⟨1, 2, fun _ j => if j = 0 then 5 else 7⟩⟩
+    let run := fun (step : TState → TOp → TState × Option TArr) => (step (trun step ⟨0, Affine2.mk' ⟨0, 1⟩ 1 1 0, none⟩
+        [.apply a, .setParams (Affine2.mk' ⟨0, 0⟩ 1 1 0)]) (TOp.apply a)).2
+    Option.map (fun r => r.arr.get 0 1) (run (tstepOld .voxel cs cs .floor)) = some 5 ∧
+    Option.map (fun r => r.arr.get 0 1) (run (tstep .voxel cs cs .floor)) = some 7 := by
+  decide +kernel
+
+/-- DIRECTION of the quarter-turn noise in voxel mode: a float evaluation of cos(π/2) is a small c ≥ 0; for the angle +π/2
+(translation (n1 − 1, 0)) the first pre-image component can only come out LOWER than its exact integer value, the second only
+HIGHER — so floor can lower only the FIRST source index, and only where v0 < n1 − 1. (For −π/2 the roles are exchanged.) The
+known-finding signature accepts exactly that pattern. -/
+theorem quarter_turn_voxel_noise_direction (n1 : Nat) (c : Rat) (hc : 0 ≤ c) (v0 v1 : Int)
+    (hv0 : 0 ≤ v0) (hn : v0 < n1) (hv1 : 0 ≤ v1) :
+    let y := (⟨⟨(n1 : Rat) - 1, 0⟩, 1, rot2 c 1, rot2Inv c 1⟩ : Affine2 Rat).inverse ⟨(v0 : Rat), (v1 : Rat)⟩
+    y.x ≤ (v1 : Rat) ∧ ((n1 : Rat) - 1 - (v0 : Rat)) ≤ y.y ∧ ((v0 : Rat) = (n1 : Rat) - 1 → y.x = (v1 : Rat)) := by
+  intro y
+  have h0 : (v0 : Rat) ≤ (n1 : Rat) - 1 := by
+    have : v0 + 1 ≤ (n1 : Int) := by omega
+    have : ((v0 + 1 : Int) : Rat) ≤ ((n1 : Int) : Rat) := by exact_mod_cast this
+    push_cast at this; linarith
+  have h1 : (0 : Rat) ≤ (v1 : Rat) := by exact_mod_cast hv1
+  have ex : y.x = (v1 : Rat) + c * ((v0 : Rat) - ((n1 : Rat) - 1)) := by
+    simp only [y, Affine2.inverse, rot2Inv, M2.mulVec, V2.sub, V2.smul]; ring
+  have ey : y.y = ((n1 : Rat) - 1 - (v0 : Rat)) + c * (v1 : Rat) := by
+    simp only [y, Affine2.inverse, rot2Inv, M2.mulVec, V2.sub, V2.smul]; ring
+  refine ⟨?_, ?_, ?_⟩
+  · rw [ex]; nlinarith
+  · rw [ey]; nlinarith
+  · intro h; rw [ex, h]; ring
+
+/-- `set_parameters(rotation=[0, 0, 0])` builds three identity factors (not an empty list): the map is still x ↦ t + σ·x. -/
+theorem scaling_translation_act_zero_angles [CommRing α] [Div α] (t x : V3 α) (σ : α) (f0 f1 f2 : Bool) :
+    (Affine3.mk' t σ [⟨.a0, f0, 1, 0⟩, ⟨.a1, f1, 1, 0⟩, ⟨.a2, f2, 1, 0⟩]).call x = V3.add t (V3.smul σ x) := by
+  have hR : rotation [(⟨.a0, f0, 1, 0⟩ : Factor α), ⟨.a1, f1, 1, 0⟩, ⟨.a2, f2, 1, 0⟩] = M3.one := by
+    simp only [rotation, rotationLoop, List.foldl_cons, List.foldl_nil, Factor.fwd, Factor.sf]
+    cases f0 <;> cases f1 <;> cases f2 <;> ext <;> simp [M3.mul, M3.one, elem]
+  simp only [Affine3.call, Affine3.mk', hR, M3.one_mulVec]
+
+end round5
 
 end Darsia.C09
